@@ -86,6 +86,50 @@ fn decorate_foreign(ast: &mut syn::DeriveInput, which: usize) {
     }
 }
 
+/// The item's tokens printed with as little (`tight`) or as much (`!tight`) whitespace as the lexer allows: the token *trees* are the
+/// same, only `Spacing` of punctuation differs (`_0,*_1` has a comma that is `Joint` with the star).
+fn respace(ts: proc_macro2::TokenStream, tight: bool, out: &mut String) {
+    use proc_macro2::{Delimiter, TokenTree};
+    // two-character prefixes of Rust's multi-character operators: these must not be glued together
+    const GLUE: &[&str] = &["::", "->", "=>", "==", "!=", "<=", ">=", "&&", "||", "+=", "-=", "*=", "/=", "%=", "^=", "&=", "|=", "<<", ">>", "..", "<-", "//", "/*", "*/"];
+    let mut prev_joint = false;
+    for tt in ts {
+        let text = match &tt {
+            TokenTree::Group(g) => {
+                let (o, c) = match g.delimiter() {
+                    Delimiter::Parenthesis => ("(", ")"),
+                    Delimiter::Brace => ("{", "}"),
+                    Delimiter::Bracket => ("[", "]"),
+                    Delimiter::None => ("", ""),
+                };
+                let mut inner = String::new();
+                respace(g.stream(), tight, &mut inner);
+                format!("{o}{inner}{c}")
+            }
+            other => other.to_string(),
+        };
+        if let Some(last) = out.chars().last() {
+            let first = text.chars().next().unwrap_or(' ');
+            let wordy = |c: char| c.is_alphanumeric() || c == '_' || c == '"' || c == '\'';
+            let need = if prev_joint {
+                false // the two puncts form one operator (or a lifetime): keep them together
+            } else if wordy(last) && wordy(first) {
+                true
+            } else if !tight {
+                true
+            } else {
+                let pair: String = [last, first].iter().collect();
+                GLUE.contains(&pair.as_str()) || (last == '\'' ) || (last == '.' && first.is_ascii_digit()) || (last.is_ascii_digit() && first == '.')
+            };
+            if need {
+                out.push(' ');
+            }
+        }
+        prev_joint = matches!(&tt, TokenTree::Punct(p) if p.spacing() == proc_macro2::Spacing::Joint);
+        out.push_str(&text);
+    }
+}
+
 /// Puts the given outer attribute(s) on the first / last / every field or variant of the item (request key `decorate`:
 /// `{"level": "field"|"variant", "which": "first"|"last"|"all", "attr": "#[..]"}`), so that generators can combine helper
 /// attributes with arbitrary shapes without a Rust tokenizer of their own.  Returns false if there is nothing to decorate.
@@ -137,6 +181,24 @@ fn decorate(ast: &mut syn::DeriveInput, level: &str, which: &str, attr: &str) ->
     done
 }
 
+/// Token trees as text with every token followed by one space: equal for two streams iff they differ in `Spacing` only.
+fn strip_spacing(ts: &proc_macro2::TokenStream) -> String {
+    use proc_macro2::TokenTree;
+    let mut out = String::new();
+    for tt in ts.clone() {
+        match tt {
+            TokenTree::Group(g) => {
+                out.push_str(&format!("{:?}[ {} ] ", g.delimiter(), strip_spacing(&g.stream())));
+            }
+            other => {
+                out.push_str(&other.to_string());
+                out.push(' ');
+            }
+        }
+    }
+    out
+}
+
 pub fn main(args: &[String]) -> i32 {
     let serial = args.iter().any(|a| a == "--serial");
     let stdin = std::io::stdin();
@@ -185,6 +247,32 @@ pub fn main(args: &[String]) -> i32 {
         let mut j = outcome_json(&id, &o, t0.elapsed().as_micros());
         if let Some(t) = decorated_text {
             j["item"] = serde_json::json!(t);
+        }
+        if let Some(tight) = v.get("respace").and_then(|c| c.as_bool()) {
+            // the same token trees with the least / the most whitespace between them: the outcome must be the same
+            if let Ok(ts) = item.parse::<proc_macro2::TokenStream>() {
+                let mut text = String::new();
+                respace(ts.clone(), tight, &mut text);
+                // only if the re-spelled text still is the same token trees (ignoring spacing) is it a fair comparison
+                let same_trees = text.parse::<proc_macro2::TokenStream>().map(|t2| strip_spacing(&t2) == strip_spacing(&ts)).unwrap_or(false);
+                if same_trees {
+                    let o2 = expand_str(d, &text);
+                    let same = match (&o, &o2) {
+                        (Outcome::Ok(a), Outcome::Ok(b)) => a == b || canonical_items(a) == canonical_items(b),
+                        (Outcome::Err(a), Outcome::Err(b)) => a == b,
+                        (Outcome::Panic { .. }, Outcome::Panic { .. }) => true,
+                        (Outcome::ParseFail(_), Outcome::ParseFail(_)) => true,
+                        _ => false,
+                    };
+                    j["respace_same"] = serde_json::json!(same);
+                    if !same {
+                        j["respace_item"] = serde_json::json!(text);
+                        j["respace_out"] = outcome_json(&id, &o2, 0);
+                    }
+                } else {
+                    j["respace_skipped"] = serde_json::json!(text);
+                }
+            }
         }
         if let Some(which) = v.get("foreign").and_then(|c| c.as_u64()) {
             // the same item with an unrelated attribute before and after the attributes of the item, of every variant and of every
